@@ -196,16 +196,45 @@ func extract(repo, leanDir string) {
 	base64Raw := gofacts.Has(b64.Body("Base64Bytes", "Scan"), "base64.RawStdEncoding.DecodeString(ds)") &&
 		gofacts.Has(b64.Body("Base64Bytes", "Value"), "return base64.RawStdEncoding.EncodeToString(i), nil") &&
 		gofacts.Has(b64.Body("Base64Bytes", "Scan"), "case []byte: ds = string(v) case string: ds = v default: return fmt.Errorf(")
-	scanSwitch := "switch v := value.(type) { case int32: ts = int64(v) case uint32: ts = int64(v) case int64: ts = v case uint64: ts = int64(v) case int: ts = int64(v) case uint: ts = int64(v) }"
-	stampScan := func(recv string) bool {
-		return gofacts.Has(ts.Body(recv, "Scan"), "var t, ok = value.(time.Time) if ok { *i = "+recv+"(t.Unix()) } return nil") &&
-			gofacts.Has(ts.Body(recv, "Value"), "return time.Unix(int64(i), 0), nil")
+	// how the SQL scanners turn the dynamic value into an integer / a stamp
+	legacySwitch := "var ts int64 switch v := value.(type) { case int32: ts = int64(v) case uint32: ts = int64(v) case int64: ts = v case uint64: ts = int64(v) case int: ts = int64(v) case uint: ts = int64(v) }"
+	strictCall := "var ts, err = scanInt64(value) if err != nil { return err }"
+	strictHelper := gofacts.Norm(`{ switch v := value.(type) { case nil: return 0, nil case int32: return int64(v), nil case uint32: return int64(v), nil case int64: return v, nil
+		case uint64: if v > math.MaxInt64 { return 0, fmt.Errorf("scan.value.out.of.range:%d", v) } return int64(v), nil case int: return int64(v), nil
+		case uint: if uint64(v) > math.MaxInt64 { return 0, fmt.Errorf("scan.value.out.of.range:%d", v) } return int64(v), nil
+		case []byte: return strconv.ParseInt(string(v), 10, 64) case string: return strconv.ParseInt(v, 10, 64) } return 0, fmt.Errorf("unsupported.scan.type:%T", value) }`)
+	nanoScan, unixScan := ts.Body("UnixNano2Time", "Scan"), ts.Body("Unix2Time", "Scan")
+	nanoTail, unixTail := " *s = UnixNano2Time(time.Unix(0, ts)) return nil }", " *s = Unix2Time(time.Unix(ts, 0)) return nil }"
+	scanShape := "unknown"
+	switch {
+	case nanoScan == "{ "+legacySwitch+nanoTail && unixScan == "{ "+legacySwitch+unixTail:
+		scanShape = "legacy"
+	case nanoScan == "{ "+strictCall+nanoTail && unixScan == "{ "+strictCall+unixTail && ts.Body("", "scanInt64") == strictHelper:
+		scanShape = "strict"
 	}
-	sqlScanValue := gofacts.Has(ts.Body("UnixNano2Time", "Scan"), scanSwitch+" *s = UnixNano2Time(time.Unix(0, ts)) return nil") &&
+	stampShape := "unknown"
+	stampBody := func(recv, shape string) bool {
+		b := ts.Body(recv, "Scan")
+		switch shape {
+		case "legacy":
+			return b == gofacts.Norm("{ var t, ok = value.(time.Time) if ok { *i = "+recv+"(t.Unix()) } return nil }")
+		default:
+			return b == gofacts.Norm("{ switch t := value.(type) { case nil: case time.Time: *i = "+recv+`(t.Unix()) default: return fmt.Errorf("unsupported.scan.type:%T", value) } return nil }`)
+		}
+	}
+	for _, sh := range []string{"legacy", "strict"} {
+		if stampBody("UnixStamp", sh) && stampBody("SQLTime2Unix", sh) {
+			stampShape = sh
+		}
+	}
+	sqlScanValue := strings.HasSuffix(nanoScan, nanoTail) && strings.HasSuffix(unixScan, unixTail) &&
 		gofacts.Has(ts.Body("UnixNano2Time", "Value"), "return time.Time(s).UnixNano(), nil") &&
-		gofacts.Has(ts.Body("Unix2Time", "Scan"), scanSwitch+" *s = Unix2Time(time.Unix(ts, 0)) return nil") &&
 		gofacts.Has(ts.Body("Unix2Time", "Value"), "return time.Time(s).Unix(), nil") &&
-		stampScan("UnixStamp") && stampScan("SQLTime2Unix")
+		ts.Body("UnixStamp", "Value") == "{ return time.Unix(int64(i), 0), nil }" &&
+		ts.Body("SQLTime2Unix", "Value") == "{ return time.Unix(int64(i), 0), nil }"
+	durToml := du.Body("Duration", "UnmarshalTOML") == gofacts.Norm("{ var s, ok = v.(string) if !ok { return ErrInvalidDuration } var dur, err = time.ParseDuration(s) if err != nil { return err } *i = (Duration)(dur) return nil }")
+	durGetter := du.Body("Duration", "Duration") == "{ return time.Duration(i) }"
+	byteToString := jb.Body("JsByte", "ToString") == gofacts.Norm("{ var builder = i.splitBuilder() return builder.String() }")
 
 	lb := gofacts.LeanBool
 	out := fmt.Sprintf(`import Nv.Model.C20
@@ -214,15 +243,17 @@ set_option linter.unusedVariables false
 namespace Nv.Gen.C20
 def cfg : Nv.C20.Cfg :=
   { i64 := %s, u64 := %s, byte := %s, unixTime := %s, nanoTime := %s, stamp := %s, dur := %s,
-    byteConv := .%s }
-def facts : Nv.C20.Facts := ⟨%s, %s, %s, %s, %s, %s, %s⟩
+    byteConv := .%s, scanInt := .%s, scanStamp := .%s }
+def facts : Nv.C20.Facts := ⟨%s, %s, %s, %s, %s, %s, %s, %s, %s, %s⟩
 end Nv.Gen.C20
-`, wI.lean(), wU.lean(), wB.lean(), wT.lean(), wN.lean(), wS.lean(), wD.lean(), conv,
-		lb(marshalQuotedDecimal), lb(durMarshal), lb(byteMarshal), lb(byteSplit), lb(hexBases), lb(base64Raw), lb(sqlScanValue))
+`, wI.lean(), wU.lean(), wB.lean(), wT.lean(), wN.lean(), wS.lean(), wD.lean(), conv, scanShape, stampShape,
+		lb(marshalQuotedDecimal), lb(durMarshal), lb(byteMarshal), lb(byteSplit), lb(hexBases), lb(base64Raw), lb(sqlScanValue),
+		lb(durToml), lb(durGetter), lb(byteToString))
 	if err := gofacts.WriteIfChanged(filepath.Join(leanDir, "Nv/Gen/C20.lean"), out); err != nil {
 		fmt.Fprintln(os.Stderr, err)
 		os.Exit(2)
 	}
-	fmt.Printf("extract C20: i64=%v u64=%v byte=%v unixTime=%v nanoTime=%v stamp=%v dur=%v byteConv=%s facts=%v,%v,%v,%v,%v,%v,%v\n",
-		wI, wU, wB, wT, wN, wS, wD, conv, marshalQuotedDecimal, durMarshal, byteMarshal, byteSplit, hexBases, base64Raw, sqlScanValue)
+	fmt.Printf("extract C20: scanInt=%s scanStamp=%s byteConv=%s facts=%v,%v,%v,%v,%v,%v,%v,%v,%v,%v i64=%v u64=%v byte=%v unixTime=%v nanoTime=%v stamp=%v dur=%v\n",
+		scanShape, stampShape, conv, marshalQuotedDecimal, durMarshal, byteMarshal, byteSplit, hexBases, base64Raw, sqlScanValue, durToml, durGetter, byteToString,
+		wI, wU, wB, wT, wN, wS, wD)
 }
